@@ -1,6 +1,8 @@
 pub mod checks;
 pub mod corpus;
 pub mod engine;
+pub mod gen;
 pub mod model;
+pub mod scalars;
 pub mod tape;
 pub mod tomlref;
